@@ -513,6 +513,26 @@ func (x *Exec) VerifyRoot() ([]*Obligation, error) {
 	f := x.newFrame(fn, params, fvs, 0, "")
 	f.contract = x.rootC
 	f.entry = entry
+	// lemmas this proof relies on (each is an obligation of its own, proved with every definition revealed)
+	if x.rootC != nil {
+		for _, name := range x.rootC.Use {
+			var lem *Lemma
+			for _, l := range x.eng.CS.Lemmas {
+				if l.Name == name {
+					lem = l
+				}
+			}
+			if lem == nil {
+				return nil, fmt.Errorf("%s:%d: unknown lemma %q", x.rootC.File, x.rootC.Line, name)
+			}
+			lenv := &Env{x: x, vars: map[string]Val{}, st: st, old: st, reach: "true", imports: lem.Imports, pkgPath: lem.PkgPath}
+			t, err := lenv.evalBool(lem.E)
+			if err != nil {
+				return nil, fmt.Errorf("%s:%d: %v", lem.File, lem.Line, err)
+			}
+			x.sc.AssertLemma(t)
+		}
+	}
 	// preconditions
 	if x.rootC != nil {
 		env := x.envForFunc(fn, x.rootC, params, nil, st, entry)
